@@ -200,9 +200,9 @@ Proof.
   - unfold kind_agrees in Hk. destruct (deps_kind (no_deps_value o) s) as [[n|] b|t|].
     + destruct Hk as [Hf _]. unfold find_deps_generic_bounds in Hf.
       destruct (find_type_param n (p_items (g_params (s_gen s))) 0) as [[idx p]|] eqn:F; [|discriminate].
-      destruct (fold_left (deps_where_step (life_names (s_gen s)) n) (where_items (s_gen s)) (trait_bounds (gp_bounds p), push_others (p_items (g_params (s_gen s))) 0 idx tg)) as [bounds tg2] eqn:E.
+      destruct (fold_left (deps_where_step (life_names (s_gen s)) n) (where_items (s_gen s)) (trait_bounds (life_names (s_gen s)) (gp_bounds p), push_others (p_items (g_params (s_gen s))) 0 idx tg)) as [bounds tg2] eqn:E.
       injection Hf as _ <-.
-      pose proof (deps_where_step_params (life_names (s_gen s)) n (where_items (s_gen s)) (trait_bounds (gp_bounds p)) (push_others (p_items (g_params (s_gen s))) 0 idx tg)) as Hp.
+      pose proof (deps_where_step_params (life_names (s_gen s)) n (where_items (s_gen s)) (trait_bounds (life_names (s_gen s)) (gp_bounds p)) (push_others (p_items (g_params (s_gen s))) 0 idx tg)) as Hp.
       rewrite E in Hp. cbn [snd] in Hp. rewrite Hp. apply (push_others_found n _ _ _ _ _ F).
     + destruct Hk as [_ ->]. apply deps_with_generics_params'.
     + destruct Hk as (_ & _ & ->). apply deps_with_generics_params'.
@@ -376,7 +376,7 @@ Proof.
     destruct (find_deps_generic_bounds tg g f) as [[d0 tg0]|] eqn:E.
     + injection H as _ <-. unfold find_deps_generic_bounds in E.
       destruct (find_type_param f (p_items (g_params g)) 0) as [[idx p]|]; [|discriminate].
-      pose proof (fold_step_ok (life_names g) f (where_items g) (trait_bounds (gp_bounds p)) _ (push_others_ok (life_names g) (p_items (g_params g)) 0 idx tg Hi)) as Hs.
+      pose proof (fold_step_ok (life_names g) f (where_items g) (trait_bounds (life_names g) (gp_bounds p)) _ (push_others_ok (life_names g) (p_items (g_params g)) 0 idx tg Hi)) as Hs.
       destruct (fold_left _ _ _) as [b t2]. injection E as _ <-. exact Hs.
     + injection H as _ <-. apply deps_with_generics_ok. exact Hi.
   - injection H as _ <-. apply deps_with_generics_ok. exact Hi.
